@@ -167,7 +167,8 @@ def run_case(case):
         import equinox as eqx
 
         jac = eqx.filter_jit(lambda m, x, c: (jax.jacfwd(lambda x: m.transform(x, c))(x),
-                                      None if c is None else jax.jacfwd(lambda c: m.transform(x, c))(c), m.transform(x, c)))
+                                      None if c is None else jax.jacfwd(lambda c: m.transform(x, c))(c), m.transform(x, c),
+                                      m.transform_and_log_det(x, c)[1]))
         xs = [jnp.asarray(0.4 + 0.3 * np.arange(dim)), jnp.asarray([(-1.0) ** i * (0.5 + i) for i in range(dim)])]
         cs = [None] if cond is None else [jnp.asarray(0.6 + 0.2 * np.arange(cond)), jnp.asarray([(-1.0) ** i * 1.5 for i in range(cond)])]
         for mode in ("init", "positive", "mixed1", "mixed50", "dense"):
@@ -176,7 +177,7 @@ def run_case(case):
                 for c in cs:
                     if mode == "positive" and (xi != 0 or (c is not None and float(c[0]) < 0)):
                         continue
-                    Jx, Jc, y = jac(m, x, c)
+                    Jx, Jc, y, ld = jac(m, x, c)
                     Jx, y = np.asarray(Jx, float), np.asarray(y, float)
                     tr += 1
                     nt += int(dim >= 2)
@@ -189,6 +190,13 @@ def run_case(case):
                         add(f"{mode}|nonfinite", f"{case['id']} weights={mode}: Jacobian has non-finite entries")
                         continue
                     upper = np.triu(Jx, 1)
+                    if kind == "maf" and np.all(np.diag(Jx) > 0) and np.isfinite(float(ld)):
+                        # "its transformer parameters depend only on inputs before i": then d y_i / d x_i is exactly the
+                        # transformer's own slope and the triangular determinant equals the reported per-coordinate product
+                        dsum = float(np.log(np.diag(Jx)).sum())
+                        if abs(dsum - float(ld)) > 1e-8 * (1 + abs(dsum)):
+                            add(f"{mode}|parameters-depend-on-own-input", f"{case['id']} weights={mode}: sum log d y_i/d x_i = {dsum!r} but the transformer slopes give {float(ld)!r}: "
+                                                                           f"the parameters of some output depend on its own input")
                     if kind in ("maf", "bnaf"):
                         if np.any(upper != 0):
                             i, j = np.argwhere(upper != 0)[0]
